@@ -476,12 +476,81 @@ class Explorer:
 
 
 # ------------------------------------------------------------------ numpy shims for the glue modules
+import operator as _op
+
+
+class SymArr(np.ndarray):
+    """object-dtype array whose comparisons stay symbolic (an object array of SBool / bool) instead of forcing bool() on
+    every entry at once: the fork happens where the glue code finally needs a concrete truth value (where / nonzero / if)"""
+    def _c(self, o, f):
+        r = np.frompyfunc(f, 2, 1)(np.asarray(self), np.asarray(o) if isinstance(o, np.ndarray) else o)
+        return r.view(SymArr) if isinstance(r, np.ndarray) else r
+
+    def __gt__(self, o):
+        return self._c(o, _op.gt)
+
+    def __ge__(self, o):
+        return self._c(o, _op.ge)
+
+    def __lt__(self, o):
+        return self._c(o, _op.lt)
+
+    def __le__(self, o):
+        return self._c(o, _op.le)
+
+    def __eq__(self, o):
+        return self._c(o, _op.eq)
+
+    def __ne__(self, o):
+        return self._c(o, _op.ne)
+
+    __hash__ = None
+
+    def __array_wrap__(self, arr, context=None, return_scalar=False):
+        if arr.ndim == 0:
+            return arr[()]                      # reductions give back the element itself (a proxy or a number)
+        if arr.dtype == object:
+            return arr.view(SymArr)
+        return np.asarray(arr)
+
+
+def as_symarr(a):
+    return a.view(SymArr) if isinstance(a, np.ndarray) and a.dtype == object else a
+
+
 def obj_zeros(shape, dtype=float, **kw):
     if dtype in (int, np.int32, np.int64, bool):
         return np.zeros(shape, dtype=dtype)
     a = np.empty(shape, dtype=object)
     a.fill(0.0)
-    return a
+    return a.view(SymArr)
+
+
+def _lift_bool(x):
+    return x.e if isinstance(x, SBool) else z3.BoolVal(bool(x))
+
+
+def sym_logical(kind):
+    real = {"or": np.logical_or, "and": np.logical_and}[kind]
+
+    def one(a, b):
+        if isinstance(a, SBool) or isinstance(b, SBool):
+            return wrap(z3.Or(_lift_bool(a), _lift_bool(b)) if kind == "or" else z3.And(_lift_bool(a), _lift_bool(b)))
+        return (bool(a) or bool(b)) if kind == "or" else (bool(a) and bool(b))
+
+    def f(a, b, *args, **kw):
+        if not _has_sym(a, b):
+            return real(a, b, *args, **kw)
+        r = np.frompyfunc(one, 2, 1)(np.asarray(a), np.asarray(b))
+        return r.view(SymArr) if isinstance(r, np.ndarray) else r
+    return f
+
+
+def sym_logical_not(a, *args, **kw):
+    if not _has_sym(a):
+        return np.logical_not(a, *args, **kw)
+    r = np.frompyfunc(lambda x: ~x if isinstance(x, SBool) else (not bool(x)), 1, 1)(np.asarray(a))
+    return r.view(SymArr) if isinstance(r, np.ndarray) else r
 
 
 def sym_isnan(x):
@@ -564,6 +633,9 @@ class sym_float(metaclass=_SymFloatMeta):
 def _shim_table():
     return {id(np.zeros): (obj_zeros, "object-dtype zeros for float arrays"),
             id(np.isclose): (sym_isclose, "|a-b| <= atol + rtol*|b| on symbolic reals"),
+            id(np.logical_or): (sym_logical("or"), "elementwise Or of symbolic booleans (no fork)"),
+            id(np.logical_and): (sym_logical("and"), "elementwise And of symbolic booleans (no fork)"),
+            id(np.logical_not): (sym_logical_not, "elementwise Not of symbolic booleans (no fork)"),
             id(np.allclose): (sym_allclose, "allclose via isclose"),
             id(np.round): (sym_np_round, "round half even on symbolic reals"),
             id(math.isnan): (sym_isnan, "isnan that is False on symbolic reals"),
